@@ -291,6 +291,10 @@ class Codec(Suite):
             name = "orjson importable" if tag == "o" else "orjson absent"
             if r.get("dumps_sees_mutation") is False or r.get("dumps_repeatable") is False:
                 return ("stale-dumps/" + tag, f"encoding the same object again does not reflect its current value ({name})", None)
+            for form, ok in (r.get("repair") or {}).items():
+                if ok is not True:
+                    return (f"repaired-value-refused/{form}/{tag}", f"an encode failed on a value (a set leaf / a cycle), the same objects were repaired in place, "
+                            f"and dumps ({form}) of the now plain JSON value: {ok} ({name})", None)
             if r.get("loads_independent") is False:
                 return ("aliased-loads/" + tag, f"decoding the same text twice does not give independent, equal values ({name})", None)
         if not J.fits64(v):
@@ -369,6 +373,7 @@ class BigTwins(Suite):
 
 
 INDENTED = {"indent2", "indent0", "indent4", "file-indent2"}
+FILE_ENCODINGS = ["utf-8", "ascii", "cp1252", "latin-1", "utf-16", "utf-8-sig", "cp437"]
 HOWS = ["indent2", "indent0", "indent4", "indentNone", "compact-seps", "utf8", "sort_keys", "default-str", "pydantic-base", "file", "file-indent2"]
 READS = ["str", "bytes", "bytearray", "file-text", "file-bytes"]
 
@@ -402,6 +407,12 @@ class EntryPoints(Suite):
         for read in READS + ["file-noseek"]:
             out.append({"g": "entry/plain-deep", "v": deep, "how": "plain", "read": read})
             out.append({"g": "entry/plain", "v": vals[len(read) % len(vals)], "how": "plain", "read": "file-noseek"})
+        # dump() to / load() from text files in several encodings (the stdlib writes ASCII only, so every encoding works)
+        nonascii = [v for v in vals if any(c >= 0x80 for c in J.all_cps(v))] or vals
+        for k, enc in enumerate(FILE_ENCODINGS):
+            for v in (nonascii[k::7][:6] + vals[k::11][:4]) if budget == "quick" else (nonascii + vals[k::3]):
+                if J.depth(v) <= 400:
+                    out.append({"g": "entry/file@" + enc, "v": v, "how": "file@" + enc, "read": "file@" + enc})
         for j, read in enumerate(READS):  # plain dumps, every way of reading
             for v in vals[j::5][:60]:
                 out.append({"g": "entry/plain", "v": v, "how": "plain", "read": read})
@@ -418,6 +429,9 @@ class EntryPoints(Suite):
                 if "text" in r:
                     idx.append((i, tag))
                     reads.append({"t": r["text"], "how": c["read"]})
+                elif "hex" in r:
+                    idx.append((i, tag))
+                    reads.append({"t": r["hex"], "how": c["read"]})
         lo = wo.call({"op": "loads2", "items": reads, "debug_every": 4})["out"]
         ls = ws.call({"op": "loads2", "items": reads, "debug_every": 4})["out"]
         obs = [{"dumps": {"o": a, "s": b}, "loads": {}} for a, b in zip(do, ds)]
@@ -432,6 +446,8 @@ class EntryPoints(Suite):
         for tag in ("o", "s"):
             d = o["dumps"][tag]
             name = "orjson importable" if tag == "o" else "orjson absent"
+            if "hex" in d:
+                continue
             if "text" not in d:
                 if fits:
                     return (f"dumps-raises/{how}/{tag}", f"encoding via {how} raises {d.get('exc')} ({name})", None)
